@@ -1,0 +1,42 @@
+// Copyright ©2026 The Gonum Authors. All rights reserved.
+// Use of this source code is governed by a BSD-style
+// license that can be found in the LICENSE file.
+
+//go:build verif
+
+package stat
+
+// Machine-checked contracts for order statistics of this package (verification
+// hook, build tag verif; this file contains comments only). See /verif/DESIGN.md.
+//
+// Only totality clauses are stated: on its documented domain the function
+// returns (no reachable "impossible" panic, no index fault), and the empirical
+// quantile is an element of the data. Numerical identities are not stated.
+
+//@ spec hasNaN(s []float64) bool = exists(k, 0, len(s), isNaN(s[k]))
+
+//@ func empiricalQuantile props: C10
+//@ floats: ieee
+//@ requires len(x) >= 1 && (weights == nil || len(weights) == len(x))
+//@ writes nothing
+//@ ensures exists(k, 0, len(x), same(result, x[k]))
+
+//@ func linInterpQuantile props: C10
+//@ floats: ieee
+//@ requires len(x) >= 1 && (weights == nil || len(weights) == len(x))
+//@ writes nothing
+
+// Quantile never fails for p in [0,1] on sorted (or NaN-containing) data.
+
+//@ func Quantile props: C10
+//@ floats: ieee
+//@ valid p >= 0 && p <= 1 && (weights == nil || len(x) == len(weights)) && len(x) > 0 && (hasNaN(x) || (sortedFloats(x) && (c == Empirical || c == LinInterp)))
+//@ panics iff !valid, before-writes
+//@ writes nothing
+
+//@ func CDF props: C10
+//@ floats: ieee
+//@ valid (weights == nil || len(x) == len(weights)) && (hasNaN(x) || (len(x) > 0 && sortedFloats(x) && (isNaN(q) || q < x[0] || q >= x[len(x)-1] || c == Empirical)))
+//@ panics iff !valid, before-writes
+//@ writes nothing
+//@ loop 1: invariant forall(k, 0, it, !(x[k] > q))
